@@ -22,7 +22,41 @@ def char_codes(s):
     return out
 
 
-def validate(items, tag="cursor", max_rounds=6):
+def validate(items, tag="cursor", max_rounds=6, parallel=6):
+    """Validate in `parallel` independent TLC runs (the trace spec is sequential: -workers 1 each)."""
+    live = [i for i, (s, ev) in enumerate(items) if ev is not None]
+    nev = sum(len(items[i][1]) for i in live)
+    if nev < 40000 or parallel <= 1:
+        return _validate(items, tag, max_rounds)
+    import threading
+    k = min(parallel, max(1, nev // 20000))
+    groups = [list(range(g, len(items), k)) for g in range(k)]
+    out = [None] * k
+
+    def work(g):
+        try:
+            out[g] = _validate([items[i] for i in groups[g]], "%s-g%d" % (tag, g), max_rounds)
+        except Exception as e:  # noqa
+            out[g] = e
+    ths = [threading.Thread(target=work, args=(g,)) for g in range(k)]
+    for t in ths:
+        t.start()
+    for t in ths:
+        t.join()
+    acc, rej, st, tr = 0, [], 0, 0
+    for g, r in enumerate(out):
+        if isinstance(r, Exception):
+            raise r
+        a, rj, (s1, t1) = r
+        acc += a
+        st += s1
+        tr += t1
+        for x in rj:
+            rej.append(dict(x, item=groups[g][x["item"]]))
+    return acc, rej, (st, tr)
+
+
+def _validate(items, tag="cursor", max_rounds=6):
     """items: list of (source_text, events) where events is the harness's compact trace
     ([[op, ...], ...]) of one parse, or None when the parse did not return (panic).
     Returns (accepted_count, rejections, tlc_stats) where rejections is a list of
@@ -49,7 +83,7 @@ def validate(items, tag="cursor", max_rounds=6):
                     owner.append(i)
                 ft.write("[6]\n")
                 owner.append(i)
-        res = vlib.tlc("CursorTrace", workers=1, deque=True, timeout=1800, xmx="8g",
+        res = vlib.tlc("CursorTrace", workers=1, deque=True, timeout=1800, xmx="4g",
                        env={"VERIF_SRCS": srcs_path, "VERIF_TRACE": trace_path}, tag="REJECT",
                        keep_cases=False)
         states += res.distinct
